@@ -48,6 +48,7 @@ type Job struct {
 	ReadFault *ReadFaultSpec `json:"read_fault,omitempty"` // the Nth successful read of a file with this suffix fails with EMFILE
 	XDev  string `json:"xdev,omitempty"` // this directory is on another device: renames across its boundary fail with EXDEV
 	PureBuf bool `json:"pure_buf,omitempty"` // replay: the buffer model the recording was made under (vs.PureBuf)
+	ClockStepMS int `json:"clock_step_ms,omitempty"` // logical clock step per reading (default 1 ms)
 	OpFaultNth int `json:"op_fault_nth,omitempty"` // the n-th FS operation fails with EIO (negative: count only)
 	External map[string]string `json:"external,omitempty"` // files created by an outside actor at an arbitrary moment of the run
 	TwoWF bool `json:"two_wf,omitempty"` // build the workflow twice (two Workflow objects), run both
@@ -413,6 +414,10 @@ func runWorkflowJob(job *Job, res *Result) {
 	vs.SimExec = r.env.simExec
 	vs.CrashHook = r.crashHook
 	vs.FSHook = r.fsHook
+	vs.ClockStep = time.Millisecond
+	if job.ClockStepMS > 0 {
+		vs.ClockStep = time.Duration(job.ClockStepMS) * time.Millisecond
+	}
 	vs.RenameFault = nil
 	if job.XDev != "" {
 		// the directory job.XDev (relative to the working directory) is on "another device":
